@@ -363,13 +363,18 @@ def norm_case():
       'use_bias': st.booleans(), 'use_scale': st.booleans(),
       'fast': st.booleans(), 'mask': st.booleans(),
       'red_pick': st.integers(0, 20), 'groups': st.integers(1, 3),
+      # 0: the default single last feature axis; otherwise a subset of the
+      # non-batch axes spelled in a generated order with negative indices
+      'feat_pick': st.sampled_from([0, 0, 1, 2, 3, 4, 5, 6, 7]),
       'momentum': st.sampled_from([0.0, 0.5, 0.9, 0.99]),
       'seed': st.integers(0, 2**16)})
 
 
 @clause('normalization', strategy=norm_case, quick=500, thorough=30000,
         quick_shards=8, thorough_shards=16, x64=True, shrink=False,
-        rule='LayerNorm (reduction axes subsets), RMSNorm, GroupNorm '
+        rule='LayerNorm (reduction axes subsets; feature axes: subsets of the '
+        'non-batch axes spelled in any order with negative indices), '
+        'BatchNorm likewise for `axis`, RMSNorm, GroupNorm '
         '(num_groups), InstanceNorm, BatchNorm (train: batch statistics and '
         'running update momentum*old+(1-momentum)*batch; inference: stored '
         'statistics used and unchanged) x epsilon x use_bias/use_scale x '
@@ -387,10 +392,36 @@ def normalization(case, ctx):
   if case['mask']:
     mask = rng.integers(0, 2, size=shape).astype(bool)
   kw = dict(epsilon=eps, use_bias=ub, use_scale=us)
-  def finish(m, v, y, mean, var, what, axes_mask=None):
+  def feature_axes(allowed):
+    """(sorted positive axes, the spelling handed to the layer)."""
+    fp = case.get('feat_pick', 0)
+    if fp == 0 or not allowed:
+      return (r - 1,), -1
+    rs_ = np.random.default_rng(1000 + fp + 17 * case['red_pick'])
+    n_ = 1 + (fp % len(allowed))
+    ax = sorted(rs_.choice(allowed, size=min(n_, len(allowed)),
+                           replace=False).tolist())
+    spelled = [a - r if rs_.integers(0, 2) else a for a in ax]
+    spelled = [spelled[i] for i in rs_.permutation(len(spelled))]
+    return tuple(ax), (tuple(spelled) if len(spelled) > 1 or fp % 2
+                       else spelled[0])
+  def bshape(ax):
+    return tuple(shape[a] if a in ax else 1 for a in range(r))
+  def finish(m, v, y, mean, var, what, axes_mask=None, feat=None):
     p = v.get('params', {})
     sc = np.asarray(p['scale']) if us else None
     bi = np.asarray(p['bias']) if ub and 'bias' in p else None
+    if feat is not None:
+      pshape = tuple(shape[a] for a in feat)
+      for nm, a_ in (('scale', sc), ('bias', bi)):
+        if a_ is not None:
+          require(a_.shape == pshape, lambda: f'{what}: parameter {nm} has '
+                  f'shape {a_.shape}, the feature axes {feat} of an input '
+                  f'{shape} have sizes {pshape}')
+      sc = None if sc is None else sc.reshape(bshape(feat))
+      bi = None if bi is None else bi.reshape(bshape(feat))
+      mean = np.asarray(mean)
+      var = np.asarray(var)
     ref = R.normalize(x, mean, var, eps, sc, bi)
     require(close(y, ref, dict(rtol=1e-7, atol=1e-8)), lambda: f'{what} '
             f'differs from (x-mean)/sqrt(var+eps)*scale+bias; max diff '
@@ -406,7 +437,8 @@ def normalization(case, ctx):
     if mask is not None:
       keep = np.asarray(mask, float).sum(axis=red, keepdims=True)
       mask = np.where(keep == 0, True, mask)
-    m = f64(nn.LayerNorm, reduction_axes=red, feature_axes=-1,
+    feat, feat_spelled = feature_axes(list(range(1, r)))
+    m = f64(nn.LayerNorm, reduction_axes=red, feature_axes=feat_spelled,
             use_fast_variance=case['fast'], **kw)
     with sut('LayerNorm'):
       v = unfreeze(m.init(KEY(0), jnp.asarray(x)))
@@ -414,9 +446,23 @@ def normalization(case, ctx):
         v = {'params': randomize(v['params'], rng)}
       y = m.apply(v, jnp.asarray(x), mask=None if mask is None else
                   jnp.asarray(mask))
+      # the same axes listed in ascending positive order: same variables,
+      # same output
+      y_sorted = f64(nn.LayerNorm, reduction_axes=red, feature_axes=feat,
+                     use_fast_variance=case['fast'], **kw).apply(
+                         v, jnp.asarray(x), mask=None if mask is None else
+                         jnp.asarray(mask))
     mean, var = R.moments(x, red, mask)
-    finish(m, v, y, mean, var, f'LayerNorm(reduction_axes={red})')
-    ctx.note(labels=['layer'], nontrivial=mask is not None or red != (r - 1,))
+    finish(m, v, y, mean, var, f'LayerNorm(reduction_axes={red}, '
+           f'feature_axes={feat_spelled})', feat=feat)
+    require(close(y, y_sorted, dict(rtol=0, atol=0)), lambda: f'LayerNorm('
+            f'feature_axes={feat_spelled}) differs from feature_axes={feat} '
+            'on the same variables')
+    ctx.note(labels=['layer', f'feat{len(feat)}'] + (
+        ['feat-unsorted'] if isinstance(feat_spelled, tuple) and tuple(
+            a % r for a in feat_spelled) != feat else []),
+             nontrivial=mask is not None or red != (r - 1,)
+             or feat != (r - 1,))
     return
   if kind == 'rms':
     if mask is not None:
@@ -473,38 +519,49 @@ def normalization(case, ctx):
     return
   # BatchNorm
   mom = case['momentum']
-  red = tuple(range(r - 1))
+  feat, feat_spelled = feature_axes(list(range(1, r)))
+  red = tuple(a for a in range(r) if a not in feat)
+  fshape = tuple(shape[a] for a in feat)
   if mask is not None:
     keep = np.asarray(mask, float).sum(axis=red, keepdims=True)
     mask = np.where(keep == 0, True, mask)
   mt = f64(nn.BatchNorm, use_running_average=False, momentum=mom,
-           use_fast_variance=case['fast'], **kw)
-  mi = f64(nn.BatchNorm, use_running_average=True, momentum=mom, **kw)
+           axis=feat_spelled, use_fast_variance=case['fast'], **kw)
+  mi = f64(nn.BatchNorm, use_running_average=True, momentum=mom,
+           axis=feat_spelled, **kw)
   with sut('BatchNorm'):
     v = unfreeze(mt.init(KEY(0), jnp.asarray(x)))
+    require(np.shape(v['batch_stats']['mean']) == fshape, lambda: 'BatchNorm('
+            f'axis={feat_spelled}) running mean has shape '
+            f'{np.shape(v["batch_stats"]["mean"])}, feature axes {feat} of '
+            f'{shape} have sizes {fshape}')
     v['batch_stats'] = {
-        'mean': jnp.asarray(rnd(rng, (C,))),
-        'var': jnp.asarray(np.abs(rnd(rng, (C,))) + 0.5)}
+        'mean': jnp.asarray(rnd(rng, fshape)),
+        'var': jnp.asarray(np.abs(rnd(rng, fshape)) + 0.5)}
     if v.get('params'):
       v['params'] = randomize(v['params'], rng)
     y, upd = mt.apply(v, jnp.asarray(x), mask=None if mask is None else
                       jnp.asarray(mask), mutable=['batch_stats'])
     yi, updi = mi.apply(v, jnp.asarray(x), mutable=['batch_stats'])
   mean, var = R.moments(x, red, mask)
-  finish(mt, v, y, mean, var, 'BatchNorm(train)')
+  finish(mt, v, y, mean, var, f'BatchNorm(train, axis={feat_spelled})',
+         feat=feat)
   old_m, old_v = np.asarray(v['batch_stats']['mean']), np.asarray(
       v['batch_stats']['var'])
   require(close(upd['batch_stats']['mean'], mom * old_m + (1 - mom) *
-                mean.reshape(-1), dict(rtol=1e-7, atol=1e-8)),
-          lambda: f'running mean != {mom}*old + {1 - mom}*batch')
+                np.asarray(mean).reshape(fshape), dict(rtol=1e-7, atol=1e-8)),
+          lambda: f'running mean != {mom}*old + {1 - mom}*batch '
+          f'(axis={feat_spelled})')
   require(close(upd['batch_stats']['var'], mom * old_v + (1 - mom) *
-                var.reshape(-1), dict(rtol=1e-7, atol=1e-8)),
-          lambda: f'running var != {mom}*old + {1 - mom}*batch')
-  finish(mi, v, yi, old_m, old_v, 'BatchNorm(inference)')
+                np.asarray(var).reshape(fshape), dict(rtol=1e-7, atol=1e-8)),
+          lambda: f'running var != {mom}*old + {1 - mom}*batch '
+          f'(axis={feat_spelled})')
+  finish(mi, v, yi, old_m.reshape(bshape(feat)), old_v.reshape(bshape(feat)),
+         f'BatchNorm(inference, axis={feat_spelled})', feat=feat)
   require(close(updi['batch_stats']['mean'], old_m, dict(rtol=0, atol=0))
           and close(updi['batch_stats']['var'], old_v, dict(rtol=0, atol=0)),
           'inference mode changed the running statistics')
-  ctx.note(labels=['batch', f'm{mom}'], nontrivial=True)
+  ctx.note(labels=['batch', f'm{mom}', f'feat{len(feat)}'], nontrivial=True)
 
 
 # ----------------------------------------------------------------------------
